@@ -84,6 +84,7 @@ func runC01(p *eng.Prog, r *eng.Report, tier string) {
 	callerSlicesNotRewritten(c, "C01.16", negSet(c, "C01.16"))
 	c01CachedMandatoryFlag(c, "C01.17")
 	c01FeaturesConfiguredPerStep(c, "C01.18")
+	c01FeatureMatchedByName(c, "C01.19")
 	nf, call := negotiateSite(c, "C01.1")
 	firstParam := ""
 	if nf != nil {
@@ -1071,4 +1072,30 @@ func c01FeaturesConfiguredPerStep(c *cx, id string) {
 		}
 	}
 	c.r.Floor(id, "negotiateFeatures calls in the Negotiator closure", n, 1)
+}
+
+// c01FeatureMatchedByName (C01.19): an advertised element names the feature
+// it stands for by its full name: getFeature returns a configured feature
+// only on the edge where the feature's Name (namespace AND local name) equals
+// the element's name. Matching the namespace alone lets <b xmlns='urn:a'/>
+// stand for the feature {urn:a}a: it is parsed, cached and negotiated although
+// it was never advertised.
+func c01FeatureMatchedByName(c *cx, id string) {
+	f := c.fn(id, "", "getFeature")
+	if f == nil {
+		return
+	}
+	g := f.Graph()
+	n := 0
+	for _, rs := range g.Returns {
+		if len(rs.Results) != 2 {
+			continue
+		}
+		if cv := f.ConstVal(rs.Results[1]); cv == nil || cv.ExactString() != "true" {
+			continue
+		}
+		n++
+		c.domAny(id, f, rs, "feature found", []string{"eq(rangeval(p1).Name,p0)", "eq(p0,rangeval(p1).Name)", "and(*eq(rangeval(p1).Name.Space,p0.Space)*eq(rangeval(p1).Name.Local,p0.Local)*)", "and(*eq(rangeval(p1).Name.Local,p0.Local)*eq(rangeval(p1).Name.Space,p0.Space)*)"})
+	}
+	c.r.Floor(id, "positive returns of getFeature", n, 1)
 }
